@@ -408,6 +408,40 @@ def main_parser_failure(rng, case):
     return case
 
 
+def shared_failure_handler(rng, case):
+    """several failures routed to the SAME call-level failure group, which ends quietly
+    (stopstepgroup), fails itself, or just completes: every routing must run it again."""
+    groups = case['lib'][0][1]
+    keep = [gs for gs in groups if gs[0] not in ('steps', 'shf', 'shg', 'gz')]
+    end = rng.choice(['stopstepgroup', 'stopstepgroup', 'probe', 'fail'])
+    handler = [{'body': 'probe', 'in': [['ptag', 'main/shf/0']]}]
+    if end == 'fail':
+        handler.append({'body': 'fail', 'in': [['ptag', 'main/shf/1'], ['vfail', {'d': [['err', 'RuntimeError'], ['msg', 'handler']]}]]})
+    elif end == 'stopstepgroup':
+        handler.append({'body': 'stopstepgroup', 'in': [['ptag', 'main/shf/1']]})
+    failing = [{'body': 'probe', 'in': [['ptag', 'main/shg/0']]},
+               {'body': 'fail', 'in': [['ptag', 'main/shg/1'], ['vfail', {'d': [['err', 'ValueError'], ['msg', 'boom']]}]]}]
+    cfg = {'d': [['groups', {'l': ['shg']}], ['failure', 'shf']]}
+    callstep = {'body': 'call', 'in': [['ptag', 'main/steps/0'], ['call', cfg]]}
+    shape = rng.choice(['foreach', 'two', 'while', 'retry'])
+    steps = [callstep]
+    if shape == 'foreach':
+        callstep['foreach'] = {'l': [1, 2, 3]}
+    elif shape == 'while':
+        callstep['while'] = {'max': 3}
+    elif shape == 'retry':
+        callstep['retry'] = {'max': 3}
+    else:
+        steps.append({'body': 'call', 'in': [['ptag', 'main/steps/1'], ['call', cfg]]})
+    if rng.random() < 0.5:
+        callstep['swallow'] = True
+    steps.append({'body': 'probe', 'in': [['ptag', 'main/steps/after']]})
+    case['lib'][0][1] = [['steps', steps]] + keep + [['shg', failing], ['shf', handler],
+                                                    ['gz', [{'body': 'probe', 'in': [['ptag', 'main/gz/0']]}]]]
+    case.pop('groups', None)
+    return case
+
+
 def features(case):
     """feature tags for evidence distributions."""
     tags = set()
